@@ -48,4 +48,19 @@ theorem wellFormed_table : WellFormed Tw.Gen.Huffman.table := by
   · exact okRangeF_spec _ _ _ table_ok_3 i (by omega) (by omega)
   · exact okRangeF_spec _ _ _ table_ok_4 i (by omega) (by omega)
 
+theorem table_lut_0 : (List.range' 0 512).all (lutOkAtF lookG) = true := by decide +kernel
+theorem table_lut_1 : (List.range' 512 512).all (lutOkAtF lookG) = true := by decide +kernel
+
+theorem lutOk_table : LutOk Tw.Gen.Huffman.table := by
+  intro i hi
+  rw [node_table]
+  simp only [LUTSIZE] at hi
+  by_cases h0 : i < 512
+  · have := table_lut_0
+    simp only [List.all_eq_true, List.mem_range'_1] at this
+    exact this i ⟨by omega, by omega⟩
+  · have := table_lut_1
+    simp only [List.all_eq_true, List.mem_range'_1] at this
+    exact this i ⟨by omega, by omega⟩
+
 end Tw.Huffman
